@@ -494,10 +494,16 @@ pub fn c09(o: &Opts) -> i32 {
             let mut ok = true;
             for step in 0..4 { let ms = cur.legal_moves(); if ms.is_empty() { ok = false; break; } if step % 2 == 0 { warm.push(cur.clone()); } cur = cur.make(r.pick(&ms)); }
             if ok && cur.legal_moves().len() >= 3 && cur.legal_moves().len() <= 48 { p = cur; } else { warm.clear(); }
+            // ... and a position two plies further on (as when a game is replayed or analysed backwards)
+            let mut fwd = p.clone();
+            for _ in 0..2 { let ms = fwd.legal_moves(); if ms.is_empty() { break; } fwd = fwd.make(r.pick(&ms)); }
+            if !fwd.legal_moves().is_empty() { warm.push(fwd); }
             warm.push(r.pick(&all).clone());
         }
         let big = p.piece_count() > 12;
-        let depth = if q { if big { 2 } else { 3 } } else { 2 + r.below(if big { 2 } else { 3 }) as u8 };
+        // a pre-warmed cache only overlaps with the new search from depth 3 on (the earlier searches then reach the
+        // new root's children at another remaining depth), so warm cases always search to depth 3
+        let depth = if !warm.is_empty() { 3 } else if q { if big { 2 } else { 3 } } else { 2 + r.below(if big { 2 } else { 3 }) as u8 };
         cases.push(C09Case { p, depth, warm, schedules: if q { 10 } else { 40 }, id: i });
     }
     // positions with several equally quick forced mates inside the horizon: whichever root task finishes
